@@ -30,13 +30,14 @@ sys.path.insert(0, VERIF)
 
 from . import api  # noqa: E402
 from .core import Explorer, PathAbort, PyRaise, SBool, SVal, Unsupported  # noqa: E402
+from .core import has_fp as core_has_fp  # noqa: E402
 from .interp import Interp  # noqa: E402
 from .registry import Registry  # noqa: E402
 from .sources import Sources  # noqa: E402
 
 TIERS = {
-    "quick": dict(goal_timeout_ms=20000, branch_timeout_ms=5000, diff_paths=40, max_paths=4000),
-    "thorough": dict(goal_timeout_ms=300000, branch_timeout_ms=20000, diff_paths=400, max_paths=40000),
+    "quick": dict(goal_timeout_ms=20000, fp_probe_ms=5000, fp_probe_total_s=15, fp_timeout_ms=150000, branch_timeout_ms=5000, diff_paths=40, max_paths=4000),
+    "thorough": dict(goal_timeout_ms=300000, fp_probe_ms=30000, fp_probe_total_s=120, fp_timeout_ms=600000, branch_timeout_ms=20000, diff_paths=400, max_paths=40000),
 }
 
 
@@ -164,6 +165,7 @@ def run_instance(job):
         "known": [],
         "assumed_real": False,
         "solver_s": 0.0,
+        "fp_probe_spent": 0.0,
     }
     try:
         mod = importlib.import_module(modname)
@@ -239,11 +241,13 @@ def run_instance(job):
                     if zb:
                         record(kind, site, "discharged", 0.0, "by evaluation")
                         return
-                    r = path.check(timeout_ms=cfgt["goal_timeout_ms"])
+                    r = path.check_full(timeout_ms=cfgt["goal_timeout_ms"])
                     neg = None
                 else:
                     neg = z3.Not(zb)
-                    r = path.check(neg, timeout_ms=cfgt["goal_timeout_ms"])
+                    r = path.check(neg, timeout_ms=cfgt["goal_timeout_ms"]) if not core_has_fp(neg) else z3.unknown
+                    if r != z3.unsat:
+                        r = path.check_full(neg, timeout_ms=cfgt["fp_timeout_ms"] if (path.fp_pc or core_has_fp(neg)) else cfgt["goal_timeout_ms"])
                 dt = time.time() - t1
                 if r == z3.unsat:
                     record(kind, site, "discharged" if neg is not None else "unreachable", dt, "z3")
@@ -275,18 +279,39 @@ def run_instance(job):
             except PyRaise as pr:
                 outcome = ("raise", pr.exc.cls.__name__)
                 t1 = time.time()
-                r = path.check(timeout_ms=cfgt["goal_timeout_ms"])
+                native = None
+                if path.fp_pc:
+                    # floating point path: first try a model of the float-free part of the path condition
+                    # and replay it natively - a reproduced failure is a violation whatever the solver says
+                    r = path.check(timeout_ms=cfgt["goal_timeout_ms"])
+                    if r == z3.sat:
+                        cargs = concretize()
+                        native = _native_run(lem, cargs)
+                        if not (native[0] == "raise" and native[1].startswith(pr.exc.cls.__name__)):
+                            native = None
+                    if r != z3.unsat and native is None:
+                        if res["fp_probe_spent"] < cfgt["fp_probe_total_s"]:
+                            tq = time.time()
+                            r = path.check_full(timeout_ms=cfgt["fp_probe_ms"])
+                            res["fp_probe_spent"] += time.time() - tq
+                        else:
+                            r = z3.unknown
+                            path.full_reason = "floating point probe budget of this instance used up"
+                else:
+                    r = path.check_full(timeout_ms=cfgt["goal_timeout_ms"])
                 dt = time.time() - t1
                 site = f"escape:{pr.exc.cls.__name__}@{pr.where or '?'}"
                 if r == z3.sat:
-                    cargs = concretize()
-                    native = _native_run(lem, cargs)
+                    if native is None:
+                        cargs = concretize()
+                        native = _native_run(lem, cargs)
                     record("no-escape", site, "refuted", dt, f"{pr.exc.cls.__name__}{_safe_repr(pr.exc.fields.get('args'))}", {k: _safe_repr(x) for k, x in cargs.items()}, native)
                     vcs[-1]["_pickle"] = _pickle_args(cargs)
                 elif r == z3.unsat:
                     outcome = ("infeasible", None)
                 else:
-                    record("no-escape", site, "undecided", dt, f"z3 {path.solver.reason_unknown()}")
+                    record("no-escape", site, "undecided", dt, f"z3 {getattr(path, 'full_reason', None) or path.solver.reason_unknown()}")
+                    vcs[-1]["fp"] = bool(path.fp_pc)
             if outcome == ("return", None):
                 record("no-escape", "end-of-lemma", "discharged", 0.0, "path ends in normal return")
             used["transparent"] |= I.transparent_used
@@ -297,7 +322,7 @@ def run_instance(job):
             # differential check against CPython on paths that returned normally with all asserts discharged
             diff = None
             if outcome == ("return", None) and "havoc" not in path.notes and res["diff_checked"] < cfgt["diff_paths"] and all(v["status"] != "refuted" for v in vcs):
-                if path.check(timeout_ms=cfgt["goal_timeout_ms"]) == z3.sat:
+                if not path.fp_pc and path.check(timeout_ms=cfgt["goal_timeout_ms"]) == z3.sat:
                     try:
                         cargs = concretize()
                         native = _native_run(lem, cargs)
@@ -311,6 +336,16 @@ def run_instance(job):
         results = ex.run(body)
         for path, _ in results:
             res["vcs"].extend(path.obligations)
+        # undecided floating point obligations: look for a witness with the float code executed over
+        # the reals (fast), and keep only what replays natively - the native run is the oracle
+        if float_mode == "fp" and any(v["status"] == "undecided" and v.get("fp") for v in res["vcs"]):
+            w = run_instance((modname, lemma_name, label, tier, mutations, findings, "real"))
+            confirmed = [v for v in w["vcs"] if v["status"] == "refuted" and v["native"] and v["native"][0] in ("raise", "assert", "hang")]
+            if confirmed:
+                for v in confirmed:
+                    v["detail"] = f"witness found in REAL mode, confirmed natively: {v['detail']}"
+                res["vcs"] = [v for v in res["vcs"] if not (v["status"] == "undecided" and v.get("fp"))] + confirmed
+            res["witness_search"] = {"mode": "real", "confirmed": len(confirmed)}
         res["paths"] = ex.stats["paths"]
         res["aborted"] = ex.stats["aborted"]
         res["solver_calls"] = ex.stats["solver_calls"]
@@ -339,7 +374,7 @@ def _pickle_args(cargs):
 # ----------------------------------------------------------------------------- property level
 
 
-def run_property(prop, tier, mutations=None, jobs=None, only=None, float_mode="fp", quiet=False):
+def run_property(prop, tier, mutations=None, jobs=None, only=None, float_mode="fp", quiet=False, instances=None):
     mods = load_property_modules(prop)
     if not mods:
         print(f"ERROR no contract module for {prop}")
@@ -353,6 +388,8 @@ def run_property(prop, tier, mutations=None, jobs=None, only=None, float_mode="f
         if only and lem.name not in only:
             continue
         for label, _ in lem.instances():
+            if instances and not any(s in label for s in instances):
+                continue
             work.append((lem.fn.__module__, lem.name, label, tier, mutations or [], findings, float_mode))
     if not work:
         print(f"ERROR no lemma for {prop}")
@@ -360,16 +397,92 @@ def run_property(prop, tier, mutations=None, jobs=None, only=None, float_mode="f
     jobs = jobs or min(16, os.cpu_count() or 4)
     t0 = time.time()
     results = []
-    if jobs == 1 or len(work) == 1:
+    if jobs == 1:
         for w in work:
             results.append(run_instance(w))
     else:
-        ctx = multiprocessing.get_context("fork")
-        with cf.ProcessPoolExecutor(max_workers=jobs, mp_context=ctx) as pool:
-            for r in pool.map(run_instance, work, chunksize=1):
-                results.append(r)
+        if len(work) > 8:
+            from .sources import prewarm
+
+            prewarm(mutations or [])
+        results = _run_pool(work, jobs, INSTANCE_DEADLINE_S[tier])
     wall = time.time() - t0
     return summarize(prop, tier, results, wall, findings, mutations, quiet)
+
+
+INSTANCE_DEADLINE_S = {"quick": 900, "thorough": 5400}
+
+
+def _err_result(job, why):
+    return {"lemma": job[1], "instance": job[2], "module": job[0], "vcs": [], "paths": 0, "aborted": 0, "diff_checked": 0, "diff_mismatch": [], "error": why, "functions": [], "transparent": [], "contracts_used": [], "models_used": [], "known": [], "assumed_real": False, "solver_s": 0.0, "wall_s": 0.0}
+
+
+def _child(conn, chunk):
+    """Run a chunk of instances; every result is sent as soon as it is ready."""
+    try:
+        for i, job in chunk:
+            try:
+                r = run_instance(job)
+            except BaseException as e:  # noqa: BLE001
+                r = _err_result(job, f"CRASH {type(e).__name__}: {e}")
+            conn.send((i, r))
+    finally:
+        conn.close()
+
+
+def _run_pool(work, jobs, deadline_s):
+    """Forked worker processes, each running a chunk of lemma instances, at most `jobs` at a time.
+    A worker that dies (solver abort) or is silent for longer than the per-instance deadline turns its
+    unfinished instances into ERROR results instead of hanging the check."""
+    ctx = multiprocessing.get_context("fork")
+    n = len(work)
+    size = max(1, min(8, n // (jobs * 3) or 1))
+    chunks = [list(enumerate(work))[k : k + size] for k in range(0, n, size)]
+    running = []
+    results = [None] * n
+    while chunks or running:
+        while chunks and len(running) < jobs:
+            chunk = chunks.pop(0)
+            parent, child = ctx.Pipe(duplex=False)
+            p = ctx.Process(target=_child, args=(child, chunk), daemon=True)
+            p.start()
+            child.close()
+            running.append({"p": p, "conn": parent, "todo": [i for i, _ in chunk], "last": time.time()})
+        progressed = False
+        for w in list(running):
+            try:
+                while w["conn"].poll(0):
+                    i, r = w["conn"].recv()
+                    results[i] = r
+                    w["todo"].remove(i)
+                    w["last"] = time.time()
+                    progressed = True
+            except (EOFError, OSError):
+                pass
+            dead = not w["p"].is_alive()
+            late = time.time() - w["last"] > deadline_s
+            if not w["todo"] or dead or late:
+                if w["todo"]:
+                    if late and not dead:
+                        w["p"].kill()
+                    # drain what may still be in the pipe
+                    try:
+                        while w["conn"].poll(0.2):
+                            i, r = w["conn"].recv()
+                            results[i] = r
+                            w["todo"].remove(i)
+                    except (EOFError, OSError):
+                        pass
+                    why = f"TIMEOUT no result within the deadline of {deadline_s} s" if late else f"CRASH worker process died with exit code {w['p'].exitcode} (solver abort?)"
+                    for j, i in enumerate(w["todo"]):
+                        results[i] = _err_result(work[i], why if j == 0 else "SKIPPED worker process of this chunk died before reaching this instance")
+                w["conn"].close()
+                w["p"].join(timeout=1)
+                running.remove(w)
+                progressed = True
+        if not progressed:
+            time.sleep(0.01)
+    return results
 
 
 def summarize(prop, tier, results, wall, findings, mutations, quiet=False):
